@@ -158,7 +158,7 @@ func gen(seed int64, n int, tier string) []interface{} {
 			}
 		}
 		c := Case{Case: fmt.Sprintf("rand-%d-%d", seed, k), Files: p.Files, Layout: p.Layout, Runs: [][]int{}}
-		if k%7 == 1 {
+		if k%7 == 1 || k%5 == 2 {
 			c.Via = "cli"
 		}
 		if k%4 == 3 {
